@@ -150,6 +150,19 @@ bool BuildLog::OpenForWriteIfNeeded() {
     if (fprintf(log_file_, kFileSignature, kCurrentVersion) < 0) {
       return false;
     }
+  } else {
+    // A previous run may have died while writing its last record.  Start on a
+    // fresh line, otherwise the first record of this run is appended to the
+    // torn line and lost with it when the log is loaded again.
+    bool ends_with_newline = true;
+    if (FILE* existing = fopen(log_file_path_.c_str(), "rb")) {
+      if (fseek(existing, -1, SEEK_END) == 0)
+        ends_with_newline = fgetc(existing) == '\n';
+      fclose(existing);
+    }
+    if (!ends_with_newline && fputc('\n', log_file_) == EOF) {
+      return false;
+    }
   }
   return true;
 }
